@@ -45,7 +45,7 @@ EnvOKX(fx, lo, hi, r) == (r.ctx = <<>> \/ AnyAround(fx, lo, hi, r.ctx)) /\ ~AnyA
 
 (* the transformations *)
 CutSeq(sq, lo, hi) == SubSeq(sq, 1, lo - 1) \o SubSeq(sq, hi + 1, Len(sq))
-SubstAt(fx, r, p) == [fx EXCEPT !.segs = [i \in 1..Len(fx.segs) |-> IF i >= p /\ i < p + Len(r.inp) THEN Rewrite(fx.segs[i], r.out[i - p + 1]) ELSE fx.segs[i]]]
+SubstAt(fx, r, p) == [fx EXCEPT !.segs = [i \in 1..Len(fx.segs) |-> IF i >= p /\ i < p + Len(r.inp) THEN RewriteBy(r.inp[i - p + 1], fx.segs[i], r.out[i - p + 1]) ELSE fx.segs[i]]]
 DeleteAt(fx, n, p) == [fx EXCEPT !.segs = CutSeq(fx.segs, p, p + n - 1), !.syl = CutSeq(fx.syl, p, p + n - 1)]                    \* D4: an emptied syllable simply has no position left
 MetathAt(fx, n, p) == [fx EXCEPT !.segs = [i \in 1..Len(fx.segs) |-> IF i >= p /\ i < p + n THEN fx.segs[2 * p + n - 1 - i] ELSE fx.segs[i]]]   \* D3
 InsertAt2(fx, out, g) == LET N == Len(fx.segs)   id == IF g < N THEN fx.syl[g + 1] ELSE fx.syl[N]                                  \* D5
